@@ -55,7 +55,54 @@ def _is_config_rejection(exc):
     return fname in ("shaper.py", "obj_references.py") and (func.startswith("_check_") or func.startswith("check_"))
 
 
+ONE_SHAPER_CALLS = (("shex", SHEXC), ("profile", None), ("profile", None), ("shex", SHACL), ("shex", SHEXC, "other-threshold"),
+                    ("shex", SHEXC), ("profile", None))
+
+
+def _check_C04_one_shaper(case, B):
+    """Call-history slice: all calls on ONE Shaper (shex_graph -> profile_graph -> profile_graph -> SHACL -> other threshold ...)."""
+    inp, cfg, t = case["input"], case["cfg"], case.get("t", 0)
+    box = [None]
+    done = []
+    for call in case.get("calls", ONE_SHAPER_CALLS):
+        call = tuple(call)
+        B.evaluations += 1
+
+        def do(call=call):
+            if box[0] is None:
+                box[0] = SU.new_shaper(inp, cfg)
+            if call[0] == "profile":
+                return box[0].profile_graph(string_output=True)
+            return SU._shex(box[0], call[1], (1 if t != 1 else 0.5) if len(call) > 2 else t)
+        try:
+            out = SU.guarded(do)
+            done.append(list(call))
+            if not isinstance(out, str):
+                B.emit("C04:no-result:%s" % "-".join(str(x) for x in call if x), "%r returned %r instead of a string" % (call, type(out).__name__),
+                       _merge(_case_of(case), {"calls": done + [list(call)]}))
+            continue
+        except U.WallClockTimeout as e:
+            exc = e
+        except Exception as e:
+            exc = e
+        if box[0] is None and not isinstance(exc, U.WallClockTimeout):
+            # an exception of the constructor (whatever its class) is a rejected configuration, as in check_C04
+            B.notes[("config-rejected: %s" % str(exc)[:80]) if _is_config_rejection(exc) else "constructor-raised: %s" % type(exc).__name__] += 1
+            return
+        name, fname, func = SU.crash_where(exc)
+        B.crashes["%s @ %s:%s" % (name, fname, func)] += 1
+        B.emit("C04:%s:%s:%s" % (name, fname, func),
+               "call %r raised %s(%s) in %s:%s after the calls %r on the same Shaper [input format %s]"
+               % (call, name, str(exc)[:160], fname, func, done, inp["format"]),
+               _merge(_case_of(case), {"calls": done + [list(call)]}))
+        done.append(list(call))
+        if box[0] is None:
+            return
+
+
 def check_C04(case, B):
+    if case.get("one_shaper"):
+        return _check_C04_one_shaper(case, B)
     inp, cfg, t = case["input"], case["cfg"], case.get("t", 0)
     for call in case.get("calls", DEFAULT_CALLS):
         call = tuple(call)
@@ -255,6 +302,29 @@ def _c04_specials():
                 cfg = _merge(allc if (k + ei) % 3 else {"target_classes": [G.CLASS_A]}, {"detect_minimal_iri": True},
                              {"examples_mode": em} if em else {}, {"inverse_paths": True} if (k + fi + ei) % 2 else {})
                 out.append(("non-hierarchical-instance-iris", SU.render_input(Tn, fmt, 1), cfg, (0, 0.5)[(k + ei) % 2]))
+    # an incoming-only property whose SUBJECTS mix IRIs and blank nodes (typed / untyped), with inverse_paths and examples
+    subj_pool = [M.IRI(G.OTHER + "u1"), M.BNode("v1"), M.IRI(G.EX + "t1"), M.BNode("w1"), M.IRI(G.OTHER + "u2"), M.BNode("v2")]
+    typed_subj = {M.IRI(G.EX + "t1"): G.CLASS_B, M.BNode("w1"): G.CLASS_B}
+    k = 0
+    for size in (2, 3, 4):
+        for combo in itertools.combinations(range(len(subj_pool)), size):
+            subs = [subj_pool[i] for i in combo]
+            if not (any(isinstance(x, M.IRI) for x in subs) and any(isinstance(x, M.BNode) for x in subs)):
+                continue
+            k += 1
+            Tm = [M.Triple(s1, ty, M.IRI(G.CLASS_A)), M.Triple(s2, ty, M.IRI(G.CLASS_A))]
+            for j, x in enumerate(subs):
+                Tm.append(M.Triple(x, G.EX + "inc", (s1, s2)[j % 2] if k % 2 else s1))
+                if k % 3 == 0:
+                    Tm.append(M.Triple(x, G.EX + "inc", s2))
+                if x in typed_subj:
+                    Tm.append(M.Triple(x, ty, M.IRI(typed_subj[x])))
+            if k % 4 == 0:
+                Tm.append(M.Triple(s1, G.PROP_P, M.Lit("x")))
+            em = (None, "cons", "all", "cons", "all")[k % 5]
+            cfg = _merge(allc if k % 3 else {"target_classes": [G.CLASS_A]}, {"inverse_paths": True}, {"examples_mode": em} if em else {},
+                         {"disable_or_statements": False} if k % 7 == 0 else {}, {"detect_minimal_iri": True} if k % 6 == 0 else {})
+            out.append(("mixed-incoming-subjects", SU.render_input(Tm, ("nt", "turtle", "turtle_iter")[k % 3], k), cfg, (0, 0, 0.5, 1)[k % 4]))
     no_types = [M.Triple(s1, G.PROP_P, M.Lit("x")), M.Triple(s1, G.PROP_Q, s2)]
     out.append(("no-type-triples", SU.render_input(no_types, "nt"), allc, 0))
     out.append(("no-type-triples", SU.render_input(no_types, "nt"), {"target_classes": [G.CLASS_A], "inverse_paths": True}, 0))
@@ -272,6 +342,9 @@ def gen_C04(tier, rng):
             cfg, t = _c04_cfg(rng, T)
             fmt = fmts[(gi + j) % len(fmts)]
             cases.append({"pid": "C04", "origin": origin, "input": SU.render_input(T, fmt, rng.randint(0, 3)), "cfg": cfg, "t": t})
+    step = 6 if tier == "selftest" else 33                # ~3 %: the same inputs with a call history on ONE Shaper
+    for i in range(3, len(cases), step):
+        cases.append(dict(cases[i], one_shaper=True, origin="call-history"))
     return cases
 
 
@@ -398,11 +471,36 @@ def _c05_namespaces(i):
     return variants[i % len(variants)]
 
 
+_DEFAULT_SHAPE_PREFIXES = ["", "weso-s", "shapes", "w-shapes"]
+
+
+def _c05_prefix_orders():
+    """User dictionaries that use 2..4 of the default shape prefixes for other namespaces, in EVERY order of insertion, with the ordinary
+    namespaces inserted before or after them (dict order is what find_adequate_prefix_for_shapes_namespaces iterates)."""
+    M, S, G = U.lib()
+    base = list(G.NAMESPACES.items())
+    out = []
+    for k in (2, 3, 4):
+        for perm in itertools.permutations(_DEFAULT_SHAPE_PREFIXES, k):
+            taken = [("http://taken%d.org/" % _DEFAULT_SHAPE_PREFIXES.index(p), p) for p in perm]
+            out.append(collections.OrderedDict(base + taken))
+            out.append(collections.OrderedDict(taken + base))
+    return out
+
+
 def gen_C05(tier, rng):
     M, S, G = U.lib()
     n_enum, n_rand = {"selftest": (24, 24), "quick": (4000, 7000), "thorough": (20000, 40000)}[tier]
     cases = []
     modes = ("all", "A", "AB")
+    orders = _c05_prefix_orders()
+    # every insertion order, deterministically, on one small graph with a shape reference (all tiers)
+    f1, f2 = M.IRI(G.EX + "s1"), M.IRI(G.EX + "s2")
+    Tf = [M.Triple(f1, M.RDF_TYPE, M.IRI(G.CLASS_A)), M.Triple(f2, M.RDF_TYPE, M.IRI(G.CLASS_B)), M.Triple(f1, G.PROP_P, f2),
+          M.Triple(f2, G.PROP_Q, M.Lit("x"))]
+    for k, ns in enumerate(orders):
+        cases.append({"pid": "C05", "origin": "default-shape-prefixes-taken", "input": {"format": "nt", "text": U.to_nt(Tf)},
+                      "cfg": _merge({"all_classes_mode": True, "namespaces_dict": ns}, {"inverse_paths": True} if k % 2 else {}), "t": 0})
     for gi, (origin, T0) in enumerate(U.mixed_family(rng, n_enum, n_rand, big=tier == "thorough")):
         mapping = _RENAMES[gi % 3]
         T = _rename(T0, mapping)
@@ -416,7 +514,12 @@ def gen_C05(tier, rng):
             if (gi + j) % 2:
                 cfg["inverse_paths"] = True
             cfg.update(PL._switch_combo(rng, 0.3))
-            ns = _c05_namespaces(rng.randint(0, 40) if j else 0)
+            if j == 0:
+                ns = None
+            elif (gi + j) % 2:
+                ns = _c05_namespaces(gi // 2 + j)
+            else:
+                ns = orders[(gi // 2 + 7 * j) % len(orders)]
             if ns is not None:
                 cfg["namespaces_dict"] = ns
             if rng.random() < 0.35:
@@ -679,24 +782,45 @@ def _pre_relaxation(c, cfg):
     return pre, None
 
 
+REPORT_DUPLICATE_TYPE_LINES = False      # pre-existing defect of the N-Triples path (see notes): counted, not reported
+
+
 def check_C03(case, B):
     M, S, G = U.lib()
     nt = case["nt"]
-    T = U.parse_nt(nt)
-    R = U.Runner()
+    lines = U.parse_nt(nt)                   # one entry per statement LINE (duplicated lines kept)
+    T = U.dedup(lines)
+    dup = case.get("duplicates")             # None | "ordinary" | "type"
+    inp = {"format": "nt", "text": nt}
+
+    def run(cfg):
+        text = B.call(lambda: SU.shex(SU.new_shaper(inp, cfg), SHEXC, 0))
+        nd = U.norm_doc(B.parse(text))
+        if any(sh["cons"] for sh in nd):
+            B.mark(nt, cfg)
+        return nd
     for cfg in case["cfgs"]:
         cfg_on = _merge(cfg, {"all_instances_are_compliant_mode": True, "keep_less_specific": True})
 
         def emit(key, what, cfg=cfg, **kw):
-            B.emit(key, what, {"pid": "C03", "nt": nt, "cfgs": [cfg]}, **kw)
+            B.emit(key, what, _merge(_case_of(case), {"cfgs": [cfg]}), **kw)
         try:
-            nd = R.run(nt, cfg_on, 0)
+            nd = run(cfg_on)
         except U.Skipped:
             continue
         spec = U.spec_for(T, cfg_on)
         l2c = PL._l2c(spec)
-        V = SU.Validator(T, nd)
+        # duplicated ordinary lines: sheXer's N-Triples path counts statement lines, so the validator is given the lines (multiset view);
+        # the set view (RDF semantics) is only counted in the notes: the unchanged tree already miscounts there
+        V = SU.Validator(lines if dup else T, nd)
         ok = V.solve()
+        if dup:
+            Vs = SU.Validator(T, nd)
+            oks = Vs.solve()
+            bad = sum(1 for sh in nd for x in spec.inst.get(l2c.get(sh["label"]), []) if (x, sh["label"]) not in oks)
+            if bad:
+                B.notes["duplicated %s lines (N-Triples): instance(s) nonconforming under RDF set semantics (pre-existing: lines are counted, "
+                        "not triples) -- not reported" % dup] += bad
         for sh in nd:
             C = l2c.get(sh["label"])
             if C is None:
@@ -708,14 +832,19 @@ def check_C03(case, B):
                 if cat == "ref-to-nonconforming-node":
                     B.notes["cascade: instance fails only because a referenced instance fails"] += 1
                     continue
-                emit("C03:nonconforming:%s" % cat, "node %s (instance of %s) does not conform to %s: %s %r"
-                     % (M.node_to_nt(x), C, sh["label"], cat, detail), node=M.node_to_nt(x), shape=sh["label"], detail=detail)
+                if dup == "type" and not REPORT_DUPLICATE_TYPE_LINES:
+                    B.notes["duplicated rdf:type lines (N-Triples): instance nonconforming even when lines are counted (pre-existing: an instance "
+                            "typed twice is counted as two instances and doubles shape-reference counts) -- not reported"] += 1
+                    continue
+                emit("C03:nonconforming:%s" % cat, "node %s (instance of %s) does not conform to %s: %s %r%s"
+                     % (M.node_to_nt(x), C, sh["label"], cat, detail, " [input with duplicated %s lines, lines counted]" % dup if dup else ""),
+                     node=M.node_to_nt(x), shape=sh["label"], detail=detail)
             for c in sh["cons"]:
                 if c["card"] == "?" and cfg_on.get("allow_opt_cardinality") is False:
                     emit("C03:opt-cardinality-although-disallowed", "%s: %r printed with allow_opt_cardinality=False" % (sh["label"], c["raw"].strip()))
         # mode off == pre-relaxation cardinalities
         try:
-            nd_off = R.run(nt, _merge(cfg_on, {"all_instances_are_compliant_mode": False}), 0)
+            nd_off = run(_merge(cfg_on, {"all_instances_are_compliant_mode": False}))
         except U.Skipped:
             continue
         on, off = PL._by_value(nd), PL._by_value(nd_off)
@@ -737,9 +866,24 @@ def check_C03(case, B):
                     emit("C03:mode-off:cardinality-changed:%s" % c1["value"][0],
                          "%s %r: with the mode on the constraint is %r (cardinality before relaxation %r), with the mode off it is %r"
                          % (lab, k, c1["raw"].strip(), pre, c0["raw"].strip()))
-    B.evaluations += R.evaluations
-    B.crashes.update(R.crashes)
-    B.nontrivial.update(R.nontrivial)
+
+
+def _duplicate_lines(nt, rng, which):
+    """Repeats 1-3 statement lines of the N-Triples text (rdf:type lines or ordinary ones) at random positions."""
+    M = U.lib()[0]
+    lines = [l for l in nt.split("\n") if l.strip()]
+    is_type = lambda l: ("<%s>" % M.RDF_TYPE) in l
+    pool = [l for l in lines if is_type(l) == (which == "type")]
+    if not pool:
+        return None
+    picked = rng.sample(pool, min(len(pool), rng.randint(1, 3)))
+    links = [l for l in pool if not l.rstrip(" .").endswith('"') and '"^^' not in l]
+    if which != "type" and links and not any(l in links for l in picked):
+        picked[0] = rng.choice(links)                      # at least one repeated line has a non-literal object when there is one
+    for l in picked:
+        for _ in range(rng.choice([1, 1, 2])):
+            lines.insert(rng.randint(0, len(lines)), l)
+    return "\n".join(lines) + "\n"
 
 
 def gen_C03(tier, rng):
@@ -755,6 +899,12 @@ def gen_C03(tier, rng):
             mode = {"all_classes_mode": True}
         pick = switches if tier == "thorough" else [switches[(gi + k * 5) % 16] for k in range(6)]
         cases.append({"pid": "C03", "origin": "strict", "nt": U.to_nt(T), "cfgs": [_merge(mode, sw) for sw in pick]})
+        if gi % (2 if tier == "selftest" else 12) == 1:           # duplicated statement lines
+            which = "type" if (gi // (2 if tier == "selftest" else 12)) % 3 == 0 else "ordinary"
+            nt2 = _duplicate_lines(U.to_nt(T), rng, which)
+            if nt2 is not None:
+                cases.append({"pid": "C03", "origin": "duplicated-%s-lines" % which, "nt": nt2, "duplicates": which,
+                              "cfgs": [_merge(mode, sw) for sw in pick[:3]]})
     return cases
 
 
@@ -768,6 +918,10 @@ _C17_NAMESPACES = [
     ["https://a.org/x/", "https://a.org/y/", "https://a.org/z/"], ["https://a.org/x/", "https://a.org/y/", "https://b.org/x/"],
     ["http://a.org/v#", "http://a.org/v#sub/", "http://a.org/w#"], ["https://a.org/x/", "urn:x:", "http://a.org/"], ["http://a.org/x/", "http://a.org/xy/"],
     ["https://a.org/x/a", "https://a.org/x/a/b"], ["http://h/", "http://i/"], ["https://a.b/", "https://a.c/"],
+    # the last separator of the common prefix is a ':' that comes AFTER the last '/' or '#'
+    ["http://identifiers.org/taxonomy:"], ["http://localhost:8080/a/", "http://localhost:8081/a/"], ["https://a.org/doc#sec:intro:"],
+    ["https://a.org/doc#sec:intro:", "https://a.org/doc#sec:outro:"], ["http://identifiers.org/taxonomy:9", "http://identifiers.org/taxonomy:1"],
+    ["https://a.org/x/db:rec:", "https://a.org/x/db:ref:"],
 ]
 
 
@@ -1060,10 +1214,10 @@ def _c15_selection(sel):
     return {"shape_map_raw": "\n".join("%s@<%s>" % (PL._selector_text(it["sel"]), it["label"]) for it in sel["items"])}
 
 
-def _c15_spec(T, sel, inv):
+def _c15_spec(T, sel, inv, extra=None):
     M = U.lib()[0]
     if sel["kind"] != "shapemap":
-        cfg = _merge(_c15_selection(sel), {"inverse_paths": inv})
+        cfg = _merge(_c15_selection(sel), {"inverse_paths": inv}, extra or {})
         spec = U.spec_for(T, cfg)
         return spec, PL._l2c(spec)
     inst = {}
@@ -1115,8 +1269,9 @@ def check_C15(case, B):
     M, S, G = U.lib()
     nt, sel, inv, track = case["nt"], case["sel"], bool(case.get("inverse")), bool(case.get("track"))
     T = U.parse_nt(nt)
-    selkw = _c15_selection(sel)
-    spec, l2c = _c15_spec(T, sel, inv)
+    extra = case.get("extra") or {}              # e.g. {"limit_remote_instances": 2, "instances_cap": 4}: given to BOTH runs
+    selkw = _merge(_c15_selection(sel), extra)
+    spec, l2c = _c15_spec(T, sel, inv, extra)
 
     def emit(key, what, **kw):
         B.emit(key, what, _case_of(case), **kw)
@@ -1203,6 +1358,53 @@ def _c15_nonhttp(T, rng):
     return U.dedup([M.Triple(node(s), p, node(o, p == M.RDF_TYPE)) for (s, p, o) in T])
 
 
+def _c15_numbers(T, rng):
+    """Adds negative / signed integers and non-integral signed xsd:float values (the endpoint substitute returns the bare lexical form
+    with its datatype; integral floats and other datatypes are excluded: read differently by the result reader, known)."""
+    M, S, G = U.lib()
+    XSD_FLOAT = M.XSD + "float"
+    ints = [M.Lit(x, dt=M.XSD_INTEGER) for x in ("-5", "-12", "-1", "0", "+7", "42")]
+    floats = [M.Lit(x, dt=XSD_FLOAT) for x in ("-2.5", "3.25", "-0.75", "+1.5")]
+    subjects = U.dedup([s for (s, p, o) in T if p == M.RDF_TYPE])
+    out = list(T)
+    for x in subjects:
+        if rng.random() < 0.8:
+            for v in rng.sample(ints, rng.randint(1, 2)):
+                out.append(M.Triple(x, G.EX + "num", v))
+        if rng.random() < 0.5:
+            out.append(M.Triple(x, G.EX + "ratio", rng.choice(floats)))
+        if rng.random() < 0.3:
+            out.append(M.Triple(x, G.EX + "num", rng.choice(floats)))
+    return U.dedup(out)
+
+
+def _c15_cap_cases(rng, n):
+    """limit_remote_instances < instances_cap < number of instances; interchangeable instances (any k of them give the same shape)."""
+    M, S, G = U.lib()
+    cases = []
+    for i in range(n):
+        m = rng.randint(5, 8)
+        cap = rng.randint(3, m - 1)
+        limit = rng.randint(1, cap - 1)
+        T = []
+        for j in range(m):
+            x = M.IRI(G.EX + "a%d" % j)
+            T += [M.Triple(x, M.RDF_TYPE, M.IRI(G.CLASS_A)), M.Triple(x, G.PROP_P, M.Lit("x%d" % j)), M.Triple(x, G.PROP_Q, M.IRI(G.OTHER + "u1"))]
+            if i % 2:
+                T.append(M.Triple(x, G.EX + "num", M.Lit(str(-j - 1), dt=M.XSD_INTEGER)))
+        for j in range(2):
+            T += [M.Triple(M.IRI(G.EX + "b%d" % j), M.RDF_TYPE, M.IRI(G.CLASS_B)), M.Triple(M.IRI(G.EX + "b%d" % j), G.PROP_P, M.Lit("y"))]
+        if i % 3 == 0:
+            rng.shuffle(T)
+        sel = ({"kind": "targets", "classes": [G.CLASS_A]}, {"kind": "all"}, {"kind": "targets", "classes": [G.CLASS_A, G.CLASS_B]})[i % 3]
+        cases.append({"pid": "C15", "origin": "limit-and-cap", "nt": U.to_nt(T), "sel": sel, "inverse": False, "track": i % 2 == 1,
+                      "extra": {"limit_remote_instances": limit, "instances_cap": cap}})
+        if i % 4 == 0:
+            cases.append({"pid": "C15", "origin": "cap-only", "nt": U.to_nt(T), "sel": sel, "inverse": False, "track": False,
+                          "extra": {"instances_cap": cap}})
+    return cases
+
+
 def _c15_unlink(T, sel):
     """Drop the triples that link two selected nodes (the selection is recomputed until stable)."""
     for _ in range(10):
@@ -1219,12 +1421,16 @@ def gen_C15(tier, rng):
     M, S, G = U.lib()
     n = {"selftest": 30, "quick": 900, "thorough": 6500}[tier]
     cases = []
-    n_nonhttp = {"selftest": 14, "quick": 260, "thorough": 1500}[tier]
-    for gi in range(n + n_nonhttp):
+    n_nonhttp = {"selftest": 14, "quick": 200, "thorough": 1500}[tier]
+    n_num = {"selftest": 10, "quick": 130, "thorough": 1000}[tier]
+    cases += _c15_cap_cases(rng, {"selftest": 8, "quick": 60, "thorough": 400}[tier])
+    for gi in range(n + n_nonhttp + n_num):
         T = _c15_graph(rng)
-        nonhttp = gi >= n
+        nonhttp = n <= gi < n + n_nonhttp
         if nonhttp:
             T = _c15_nonhttp(T, rng)
+        if gi >= n + n_nonhttp:
+            T = _c15_numbers(T, rng)
         classes = U.dedup([o.iri for (s, p, o) in T if p == M.RDF_TYPE])
         props = U.dedup([p for (s, p, o) in T if p != M.RDF_TYPE])
         subjects = U.dedup([s.iri for (s, p, o) in T])
@@ -1248,6 +1454,8 @@ def gen_C15(tier, rng):
                 Tk, family = _c15_unlink(T, sel), "no-link-between-selected-nodes"
             cases.append({"pid": "C15", "origin": family + ("+non-http-iris" if nonhttp else ""), "nt": U.to_nt(Tk), "sel": sel, "inverse": inv,
                           "track": (gi // 2 + k) % 2 == 1})
+            if gi >= n + n_nonhttp:
+                cases[-1]["origin"] += "+signed-numbers"
     return cases
 
 
@@ -1288,7 +1496,27 @@ BOUNDS.update({
 # ================================================================================================
 def gen_cases(pid, tier, seed):
     rng = random.Random("schemas|%s|%s|%s" % (pid, tier, seed))
-    return GENS[pid](tier, rng)
+    cases = GENS[pid](tier, rng)
+    if pid != "C04":                                   # C04 has its own one-Shaper slice
+        step = 5 if tier == "selftest" else 33         # ~3 % of the cases run their calls inside a history on the SAME Shaper
+        for n, i in enumerate(range(2, len(cases), step)):
+            cases[i] = dict(cases[i], history=SU.HISTORY_KINDS[n % len(SU.HISTORY_KINDS)])
+    return cases
+
+
+def _run_case(case, B):
+    """The pid's check; with case["history"] every shex_graph call of the check is embedded in a call history on the same Shaper, the
+    check's oracle sees the LAST result and results that must be equal are compared (keys <pid>:call-history:<what>)."""
+    kind = case.get("history")
+    if not kind:
+        return CHECKS[case["pid"]](case, B)
+    SU.HISTORY = SU.History(kind)
+    try:
+        CHECKS[case["pid"]](case, B)
+        for what, text in SU.HISTORY.problems:
+            B.emit("%s:call-history:%s" % (case["pid"], what), "call history %r on one Shaper: %s" % (kind, text[:1500]), _case_of(case))
+    finally:
+        SU.HISTORY = None
 
 
 def _init_worker():
@@ -1300,7 +1528,7 @@ def _work(case):
     t0 = time.time()
     err = None
     try:
-        CHECKS[case["pid"]](case, B)
+        _run_case(case, B)
     except Exception as exc:                           # a bug of the monitor itself must be visible
         import traceback
         err = "%s: %s\n%s" % (type(exc).__name__, exc, traceback.format_exc()[-1500:])
@@ -1323,7 +1551,7 @@ def _size(f):
 def _reproduces(case, key):
     B = SU.Book()
     try:
-        CHECKS[case["pid"]](case, B)
+        _run_case(case, B)
     except Exception:
         return False
     return any(f["key"] == key for f in B.findings)
@@ -1375,7 +1603,7 @@ def _shrink(f, budget=120):
                 if attempt(cand):
                     case = cand
     B = SU.Book()
-    CHECKS[case["pid"]](case, B)
+    _run_case(case, B)
     same = [g for g in B.findings if g["key"] == key]
     if not same:
         return f
@@ -1446,7 +1674,7 @@ def replay(doc):
         return True, "replay: document carries no schemas case"
     U.env()
     B = SU.Book()
-    CHECKS[case["pid"]](case, B)
+    _run_case(case, B)
     key = doc.get("key")
     same = [f for f in B.findings if f["key"] == key]
     if same:
@@ -1564,7 +1792,106 @@ def _mutants():
                 return uri1[:i]
         return uri2
 
+    import shexer.io.graph.yielder.remote.sgraph_from_selectors_triple_yielder as sfs
+    orig_shex_graph = shp.Shaper.shex_graph
+    orig_profile_graph = shp.Shaper.profile_graph
+    orig_init = shp.Shaper.__init__
+    orig_tune_token = sfs.tune_token
+
+    def shex_graph_keeps_shexer(self, string_output=False, output_file=None, output_format=SHEXC, acceptance_threshold=0, verbose=False,
+                                to_uml_path=None):
+        # seeded: no `self._class_shexer = None` before re-launching for another threshold
+        if self._shape_list is not None and self._shape_list_threshold != acceptance_threshold and self._class_shexer is not None:
+            self._check_correct_output_params(string_output, output_file, to_uml_path)
+            self._launch_class_shexer(acceptance_threshold=acceptance_threshold, verbose=verbose)
+            self._shape_list_threshold = acceptance_threshold
+        return orig_shex_graph(self, string_output=string_output, output_file=output_file, output_format=output_format,
+                               acceptance_threshold=acceptance_threshold, verbose=verbose, to_uml_path=to_uml_path)
+
+    def profile_graph_unguarded(self, string_output=False, output_file=None, verbose=False):
+        # seeded: the `if self._profile is None` guard is gone
+        self._check_correct_output_params(string_output, output_file)
+        if self._target_classes_dict is None:
+            self._launch_instance_tracker(verbose=verbose)
+        self._launch_class_profiler(verbose=verbose)
+        from shexer.io.profile.formater.abstract_profile_serializer import AbstractProfileSerializer
+        return AbstractProfileSerializer(self._profile).get_string_representation()
+
+    def prefix_with_generator(current_namespace_prefix_dict):
+        curr_prefixes = (p for p in current_namespace_prefix_dict.values())       # seeded: a generator consumed by `in`
+        for a_prefix in ["", "weso-s", "shapes", "w-shapes"]:
+            if a_prefix not in curr_prefixes:
+                return a_prefix
+        return "zzz"
+
+    def tune_token_digit_only(a_token, allow_untyped_numbers=False, **kw):
+        if allow_untyped_numbers and not a_token[:1].isdigit():                    # seeded: `-5` is no longer a number
+            allow_untyped_numbers = False
+        return orig_tune_token(a_token, allow_untyped_numbers=allow_untyped_numbers, **kw)
+
+    def init_limit_wins(self, *a, **kw):
+        lim, cap = kw.get("limit_remote_instances", -1), kw.get("instances_cap", -1)
+        if lim == -1 or cap == -1:
+            return orig_init(self, *a, **kw)
+        g = shp.get_shape_map_if_needed                                            # seeded: precedence of the two limits swapped
+        shp.get_shape_map_if_needed = lambda **k: g(**dict(k, limit_remote_instances=lim))
+        try:
+            orig_init(self, *a, **kw)
+        finally:
+            shp.get_shape_map_if_needed = g
+        self._limit_remote_instances = lim
+
+    def pattern_colon_last_resort(self, longest_common_prefix):
+        if longest_common_prefix is None:
+            return None
+        cut = max(longest_common_prefix.rfind("/"), longest_common_prefix.rfind("#"))
+        if cut < 0:
+            cut = longest_common_prefix.rfind(":")
+        if cut < 0:
+            return None
+        candidate = longest_common_prefix[:cut + 1]
+        if len(candidate) < 3 or amis._BARE_SCHEME.match(candidate):
+            return None
+        return candidate
+
+    orig_add_dominant = ass.MergeableConstraints._add_dominant
+
+    import shexer.core.profiling.strategy.abstract_feature_direction_strategy as afds
+    from shexer.core.profiling.consts import POS_FEATURES_DIRECT, _O
+    orig_annotate_subject = afds.AbstractFeatureDirectionStrategy._annotate_target_subject
+
+    def annotate_subject_repeated_line_half(self, a_triple):
+        # a repeated statement line is counted for the node kind but not for the shape references of its object
+        key = (str(a_triple[_S]), str(a_triple[_P]), str(a_triple[_O]), type(a_triple[_O]).__name__)
+        seen = self.__dict__.setdefault("_seen_lines", set())
+        if key in seen:
+            str_prop = a_triple[_P].iri
+            self._i_dict[a_triple[_S].iri][POS_FEATURES_DIRECT][str_prop][self._decide_type_elem(a_triple[_O], str_prop)] += 1
+            return
+        seen.add(key)
+        orig_annotate_subject(self, a_triple)
+
+    def add_dominant_loses_inverse(self, statement):
+        statement.is_inverse = False                                               # seeded: merged NONLITERAL statement loses is_inverse
+        orig_add_dominant(self, statement)
+
     return [
+        ("C05", "seeded: shex_graph keeps the class shexer for a new threshold (shapes accumulate)",
+         setattr_patch(shp.Shaper, "shex_graph", shex_graph_keeps_shexer)),
+        ("C04", "seeded: profile_graph re-runs the class profiler on every call (no `if self._profile is None`)",
+         setattr_patch(shp.Shaper, "profile_graph", profile_graph_unguarded)),
+        ("C05", "seeded: find_adequate_prefix_for_shapes_namespaces iterates a generator consumed by `in`",
+         setattr_patch(shp, "find_adequate_prefix_for_shapes_namespaces", prefix_with_generator)),
+        ("C15", "seeded: tune_token accepts untyped numbers only when the first character is a digit",
+         setattr_patch(sfs, "tune_token", tune_token_digit_only)),
+        ("C15", "seeded: limit_remote_instances takes precedence over instances_cap",
+         setattr_patch(shp.Shaper, "__init__", init_limit_wins)),
+        ("C17", "seeded: the stem is cut at the last '/' or '#', at ':' only when neither exists",
+         setattr_patch(amis.AnnotateMinIriStrategy, "_determine_suitable_iri_pattern", pattern_colon_last_resort)),
+        ("C03", "duplicated lines: a repeated statement line counts for the node kind but not for the shape reference",
+         setattr_patch(afds.AbstractFeatureDirectionStrategy, "_annotate_target_subject", annotate_subject_repeated_line_half)),
+        ("C04", "seeded: the merged NONLITERAL statement loses is_inverse",
+         setattr_patch(ass.MergeableConstraints, "_add_dominant", add_dominant_loses_inverse)),
         ("C04", "seeded: _determine_suitable_iri_pattern tests candidate.split('/')[2] (IndexError on urn:/tag:/mailto: stems)",
          setattr_patch(amis.AnnotateMinIriStrategy, "_determine_suitable_iri_pattern", pattern_split_rewrite)),
         ("C15", "seeded: _add_corners_if_needed recognises only http(s) IRIs in result cells",
